@@ -30,6 +30,7 @@ from typing import Any, Dict, Iterable, List, Optional, Sequence, Tuple
 from ..core import Ctx, MachineryError, tla
 
 FILES = {"toml": ("pyproject.toml", "tool.pydoctor"), "cfg": ("setup.cfg", "tool:pydoctor"), "ini": ("pydoctor.ini", "pydoctor")}
+ALT_SECTION = {"toml": "pydoctor", "cfg": "pydoctor", "ini": "tool:pydoctor"}     # another section every format recognises
 ADV_TEXT = "x 'y' \"z\" #=;[1]\\"           # space, both quotes, comment signs, delimiter, brackets, trailing backslash
 
 
@@ -51,19 +52,25 @@ def _classes() -> Dict[str, Any]:
 
 # ------------------------------------------------------------------------------- the option list
 def option_table() -> List[Dict[str, Any]]:
-    """The options of the real parser that a config file can set, with what the model needs to know."""
+    """The options of the real parser that a config file can set, with what the model needs to know.
+    Actions of the same class writing to the same attribute are the names of ONE option (--add-package /
+    --add-module), whether they are declared by one add_argument() call or by several."""
     import argparse
     from pydoctor.options import get_parser
     parser = get_parser()
     all_strings = [s for a in parser._actions for s in a.option_strings]
     all_keys = {k for a in parser._actions for k in parser.get_possible_config_keys(a)}
-    out = []
+    groups: Dict[Tuple[str, type], List[Any]] = {}
     for a in parser._actions:
         keys = parser.get_possible_config_keys(a)
         if not keys or isinstance(a, (argparse._HelpAction, argparse._VersionAction)) or getattr(a, "is_config_file_arg", False):
             continue
-        longs = [s for s in a.option_strings if s.startswith("--")]
-        shorts = [s for s in a.option_strings if len(s) == 2 and s[0] == "-" and s[1] != "-"]
+        groups.setdefault((a.dest, type(a)), []).append(a)
+    out = []
+    for (dest, _cls), acts in groups.items():
+        a = acts[0]
+        longs = [s for x in acts for s in x.option_strings if s.startswith("--")]
+        shorts = [s for x in acts for s in x.option_strings if len(s) == 2 and s[0] == "-" and s[1] != "-"]
         if isinstance(a, (argparse._StoreTrueAction, argparse._StoreFalseAction)):
             kind = "flag"
         elif isinstance(a, argparse._CountAction):
@@ -78,8 +85,8 @@ def option_table() -> List[Dict[str, Any]]:
         abbr = longs[0][:-1]
         unambiguous = len(abbr) > 3 and [s for s in all_strings if s.startswith(abbr)] == [longs[0]]
         out.append({"key": longs[0][2:], "kind": kind, "vk": vk, "short": bool(shorts), "abbrev": unambiguous,
-                    "destkey": a.dest not in all_keys, "extra": set(),
-                    "_": {"dest": a.dest, "long": longs[0], "short": shorts[0] if shorts else None, "abbr": abbr,
+                    "destkey": a.dest not in all_keys, "extra": set(), "names": len(longs),
+                    "_": {"dest": a.dest, "long": longs[0], "longs": longs, "short": shorts[0] if shorts else None, "abbr": abbr,
                           "choices": list(a.choices) if a.choices else None, "default": a.default,
                           "store_false": isinstance(a, argparse._StoreFalseAction)}})
     return out
@@ -128,8 +135,11 @@ def plain_safe(t: str) -> bool:
 
 
 def file_text(o: Dict[str, Any], scn: Dict[str, Any]) -> str:
-    fmt, key, kind, style = scn["fmt"], o["key"], o["kind"], scn["fstyle"]
-    lines = [f"[{FILES[fmt][1]}]"]
+    fmt, kind, style = scn["fmt"], o["kind"], scn["fstyle"]
+    key = o["_"]["longs"][scn.get("fname", 1) - 1][2:]
+    main, alt = FILES[fmt][1], ALT_SECTION[fmt]
+    lines = {"main": [f"[{main}]"], "alt": [f"[{alt}]"],
+             "emptyMain": [f"[{main}]", "# nothing is set here", f"[{alt}]"]}[scn.get("place", "main")]
     if scn["file"]["has"]:
         v = scn["file"]["v"]
         if kind == "flag":
@@ -169,9 +179,9 @@ def file_text(o: Dict[str, Any], scn: Dict[str, Any]) -> str:
     return "\n".join(lines) + "\n"
 
 
-def cli_args(o: Dict[str, Any], v: Sequence[int], spell: str) -> List[str]:
+def cli_args(o: Dict[str, Any], v: Sequence[int], spell: str, cname: int = 1) -> List[str]:
     x, kind = o["_"], o["kind"]
-    name = x["abbr"] if spell == "abbrev" else x["long"]
+    name = x["abbr"] if spell == "abbrev" else x["longs"][cname - 1]
     if kind == "flag":
         return [name] if v == [1] else []
     if kind == "count":
@@ -273,7 +283,7 @@ def diff_options(a: Any, b: Any) -> Dict[str, Any]:
 def evaluate(run: Runner, o: Dict[str, Any], scn: Dict[str, Any], ref: Dict[str, Any]) -> Dict[str, Any]:
     """Run one scenario for real; returns observed facts and the list of failed clauses."""
     exp = run.expected(cli_args(o, ref["val"], "eq" if o["kind"] in ("store", "append") else "long"))
-    argv = cli_args(o, scn["cli"]["v"], scn["spell"]) if scn["cli"]["has"] else []
+    argv = cli_args(o, scn["cli"]["v"], scn["spell"], scn.get("cname", 1)) if scn["cli"]["has"] else []
     text = file_text(o, scn)
     fname = FILES[scn["fmt"]][0]
     if scn.get("via") == "config":                       # not one of the default names: found through --config only
@@ -371,9 +381,10 @@ HIST_INPUTS: Dict[str, Tuple[List[str], Dict[str, str]]] = {
     "nameCfg": ([], {"setup.cfg": "[tool:pydoctor]\nproject-name = FromCfg\n"}),
     "nameTomlComment": ([], {"pyproject.toml": '[tool.pydoctor]\nproject-name = "Demo"  # comment\n'}),
     "verboseToml": ([], {"pyproject.toml": "[tool.pydoctor]\nverbose = 2\n"}),
+    "defaultCfg": ([], {"setup.cfg": "[DEFAULT]\nproject-name = FromDefault\n\n[tool:pydoctor]\nverbose = 1\n"}),
 }
 HIST_PKGS = {"pkgToml": ["dir1"], "pkgCli": ["dir1"], "pkgCfg": ["dir2"]}
-HIST_NAME = {"nameCfg": "FromCfg", "nameTomlComment": "Demo"}
+HIST_NAME = {"nameCfg": "FromCfg", "nameTomlComment": "Demo", "defaultCfg": "FromDefault"}
 HIST_CFG = """SPECIFICATION Spec
 CONSTANTS Inputs = {inputs}
           MaxLen = {maxlen}
@@ -460,7 +471,7 @@ def part_history(ctx: Ctx) -> int:
                             "each_run_in_a_forked_child": True}
     # design-level negative controls: a process that remembers must violate Independent in the model
     nc = {}
-    for memory in ("packages", "format"):
+    for memory in ("packages", "format", "defaults"):
         r2 = ctx.tlc("ConfigHistory", HIST_CFG.format(inputs=tla(set(HIST_INPUTS)), maxlen=2, memory=memory).replace("CONSTRAINT Emit\n", ""),
                      workers=1, timeout=600, count=False)
         nc[memory] = "Independent" in r2.violated
@@ -525,7 +536,7 @@ def part_merge(ctx: Ctx, rng: random.Random) -> int:
             ctx.violation({"invariant": out["failed"][0], "failed": out["failed"], "kind": "merge", "scn": scn,
                            "argv": out["argv"], "file": out["file"], "expected": ref, "observed": out["observed"],
                            "key": f"merge:{scn['key']}:{scn['fmt']}:{scn.get('via')}:{scn['fstyle']}:{scn['spell']}:{scn['unknown']}:"
-                                  f"{scn['file']['v']}:{scn['cli']['v']}:{out['failed']}"})
+                                  f"{scn['file']['v']}:{scn['cli']['v']}:{scn.get('place')}:{scn.get('fname')}{scn.get('cname')}:{out['failed']}"})
         else:
             ob = out["observed"]
             if ob.get("abs") is not None and (ob["abs"] != impl["val"] or bool(ob["warn"]) != impl["warn"]):
@@ -544,7 +555,8 @@ def part_merge(ctx: Ctx, rng: random.Random) -> int:
     # negative control: the judge must reject an observation it is handed wrong (file silently ignored)
     o = by_key["project-name"]
     scn = {"opt": 0, "key": "project-name", "kind": "store", "fmt": "toml", "via": "default", "file": {"has": True, "v": [1]},
-           "fstyle": "string", "cli": {"has": False, "v": []}, "spell": "none", "unknown": "none"}
+           "fstyle": "string", "cli": {"has": False, "v": []}, "spell": "none", "unknown": "none", "place": "main",
+           "fname": 1, "cname": 1}
     e_good = evaluate(run, o, scn, {"val": [1], "warn": False, "abort": False})
     e_bad = evaluate(run, o, scn, {"val": [2], "warn": False, "abort": False})
     bad2 = evaluate(run, o, scn, {"val": [1], "warn": True, "abort": False})["failed"]
